@@ -42,9 +42,7 @@ type notationClass_ struct {
 
 func (c *notationClass_) Make() col.NotationLike {
 	return &notation_{
-		class_:     c,
-		formatter_: Formatter().Make(),
-		parser_:    Parser().Make(),
+		class_: c,
 	}
 }
 
@@ -52,10 +50,12 @@ func (c *notationClass_) Make() col.NotationLike {
 
 // Target
 
+// NOTE:
+// A notation must not hold a formatter or parser of its own.  The first notation
+// passed to a collection class is shared by every instance of that class (it is
+// what their String() methods use) so it may be used by many go-routines at once.
 type notation_ struct {
-	class_     col.NotationClassLike
-	formatter_ FormatterLike
-	parser_    ParserLike
+	class_ col.NotationClassLike
 }
 
 // Attributes
@@ -67,11 +67,11 @@ func (v *notation_) GetClass() col.NotationClassLike {
 // Canonical
 
 func (v *notation_) FormatValue(value any) (source string) {
-	source = v.formatter_.FormatValue(value)
+	source = Formatter().Make().FormatValue(value)
 	return source
 }
 
 func (v *notation_) ParseSource(source string) (value any) {
-	value = v.parser_.ParseSource(source)
+	value = Parser().Make().ParseSource(source)
 	return value
 }
